@@ -22,6 +22,76 @@ def strategy(tier):
     return gp.case(max_res=8)
 
 
+EXHAUSTIVE = False
+LIBRARY_TESTS = "/repo/polyply/tests/test_data/library_tests"
+
+
+def enumerate_cases(tier, seed):
+    """the repository's library integration inputs (28 force-field / polymer combinations): the same
+    round trip on real force fields; they come from the `command` files next to the reference outputs"""
+    import glob
+    import shlex
+    cases = []
+    for cmd_file in sorted(glob.glob(f"{LIBRARY_TESTS}/*/*/polyply/command")):
+        tokens = shlex.split(open(cmd_file).read().split("\n")[0])
+        lib, seq, seqf, extra, name, dsdna = None, [], None, [], "mol", False
+        i = 2
+        while i < len(tokens):
+            tok = tokens[i]
+            if tok == "-lib":
+                lib = tokens[i + 1]; i += 2
+            elif tok == "-seq":
+                i += 1
+                while i < len(tokens) and not tokens[i].startswith("-"):
+                    seq.append(tokens[i]); i += 1
+            elif tok == "-seqf":
+                seqf = tokens[i + 1]; i += 2
+            elif tok == "-f":
+                extra.append(tokens[i + 1]); i += 2
+            elif tok == "-name":
+                name = tokens[i + 1]; i += 2
+            elif tok == "-dsdna":
+                dsdna = True; i += 1
+            else:
+                i += 2 if tok == "-o" else 1
+        cases.append({"library": {"dir": cmd_file.rsplit("/", 1)[0], "lib": lib, "seq": seq, "seqf": seqf,
+                                  "extra": extra, "name": name, "dsdna": dsdna}, "rng": 1})
+    return cases
+
+
+def run_library(spec, ctx):
+    """gen_params on a library case; returns a gp.Run-like object with the written text and the built molecule"""
+    import os
+    import logging
+    import vermouth.gmx.itp as vitp
+    from pathlib import Path
+    from polyply.src.gen_itp import gen_params
+    from . import core
+    lib = spec["library"]
+    base = Path(lib["dir"])
+    run = gp.Run()
+    out = ctx.dir / "out.itp"
+    orig_write = vitp.write_molecule_itp
+
+    def write_wrapper(molecule, *args, **kw):
+        run.captured["molecule"] = molecule
+        return orig_write(molecule, *args, **kw)
+
+    vitp.write_molecule_itp = write_wrapper
+    try:
+        gen_params(name="mol", outpath=out, inpath=[(base / f).resolve() for f in lib["extra"]], lib=[lib["lib"]],
+                   seq=lib["seq"] or None, seq_file=(base / lib["seqf"]).resolve() if lib["seqf"] else None,
+                   dsdna=lib["dsdna"])
+    except Exception as err:
+        run.exc = err
+    finally:
+        vitp.write_molecule_itp = orig_write
+    run.out_exists = out.exists()
+    run.text = out.read_text() if run.out_exists else None
+    run.warnings = [r for r in core._COLLECTOR.records if r[0] >= logging.WARNING]
+    return run
+
+
 TOP = """[ defaults ]
 1 1 no 1.0 1.0
 [ atomtypes ]
@@ -38,6 +108,8 @@ mol 1
 
 
 def check(spec, ctx):
+    if "library" in spec:
+        return check_library(spec, ctx)
     pre = mdl.expected(spec)
     if pre.invalid:
         from .core import Reject
@@ -136,3 +208,45 @@ def check(spec, ctx):
     if any(b["syntax"] == "itp" for b in spec["blocks"]):
         ctx.label("itp_syntax")
     ctx.nontrivial = nres >= 3 and cross >= 1
+
+
+def check_library(spec, ctx):
+    from .itp import read_itp
+    from polyply.src.meta_molecule import MetaMolecule
+    import vermouth.forcefield
+    run = run_library(spec, ctx)
+    tag = spec["library"]["dir"].split("library_tests/")[1].rsplit("/polyply", 1)[0]
+    if run.exc is not None:
+        raise crash(f"library:{tag}:crash", run.exc)
+    if not run.out_exists:
+        raise Violation(f"library:{tag}:no_output", "no file written")
+    written = read_itp(run.text)[0]
+    molecule = run.captured.get("molecule")
+    built_atoms, built_inter = gpcheck.molecule_tables(molecule)
+    err = gpcheck.same_atoms(written["atoms"], built_atoms)
+    if err:
+        raise Violation("library:file_vs_built:atoms", f"{tag}: {err}")
+    err = gpcheck.diff_multisets(inter_multiset(written["inter"]), inter_multiset(built_inter))
+    if err:
+        raise Violation("library:file_vs_built:interactions", f"{tag}: {err}")
+    try:
+        ff = vermouth.forcefield.ForceField("x")
+        meta2 = MetaMolecule.from_itp(ff, ctx.dir / "out.itp", "mol")
+    except Exception as exc:
+        raise crash(f"library:{tag}:reread_crash", exc)
+    re_atoms, re_inter = gpcheck.molecule_tables(meta2.molecule)
+    err = gpcheck.same_atoms(re_atoms, built_atoms)
+    if err:
+        raise Violation("library:reread:atoms", f"{tag}: {err}")
+    err = gpcheck.diff_multisets(inter_multiset(re_inter), inter_multiset(built_inter))
+    if err:
+        raise Violation("library:reread:interactions", f"{tag}: {err}")
+    resids = sorted({a["resid"] for a in written["atoms"]})
+    got_nodes = sorted(meta2.nodes[n]["resid"] for n in meta2.nodes)
+    if got_nodes != resids:
+        raise Violation("library:reread:residues", f"{tag}: residues {got_nodes[:5]}.. vs {resids[:5]}..")
+    if not gpcheck.missing_link_warnings(run) and not spec["library"]["dsdna"] and \
+            not __import__("networkx").is_connected(meta2):
+        raise Violation("library:reread:disconnected", f"{tag}: no link was reported missing but the re-read residue graph is disconnected")
+    ctx.label("library_case")
+    ctx.nontrivial = len(resids) >= 3
